@@ -10,9 +10,11 @@
    (copy or not, any heap) or a later edit of the meaning; [Inv h] = every object of class CodedConcept in heap h is
    exactly one code; [run_ops] = a history of API calls and user actions (C17_Model, Extension 3).
    (C17_Proofs_Set) [eok U e] = entry e = (identity, object) is the object with that identity and can be hashed
-   and compared; [ematch] = same hashed string and == ; [plast l x] = value written last under a key matching x. *)
+   and compared; [ematch] = same hashed string and == ; [plast l x] = value written last under a key matching x.
+   (C17_Proofs_Hist) histories also contain user edits of the code (OSetCode / OSetScheme / OSetVersion), copies made
+   outside the API (OClone = deepcopy / pickle) and uses as a key (OHash, OLookup) before such edits. *)
 From Coq Require Import String ZArith List Bool.
-From HD Require Import Base.Val C17_Model C17_Proofs C17_Proofs_Ext C17_Proofs_Set C17_Proofs_File.
+From HD Require Import Base.Val C17_Model C17_Proofs C17_Proofs_Ext C17_Proofs_Set C17_Proofs_File C17_Proofs_Hist.
 Import ListNotations.
 Open Scope string_scope.
 Open Scope Z_scope.
@@ -361,6 +363,87 @@ Theorem C17_reachable_no_shared_nested : forall srt ops h kids vs a b c,
   kid_of kids a = Some c -> kid_of kids b = Some c -> a = b.
 Proof. exact reachable_no_shared_nested. Qed.
 Print Assumptions C17_reachable_no_shared_nested.
+
+(* ==== objects with a past: hashing, copying and editing in any order =================================== *)
+(* after ANY history (earlier uses as a key, deepcopy / pickle, from_dataset copy or alias, edits of value, form,
+   scheme, version or meaning of the object or of the object it was copied from) hash(obj) of a concept is the hash
+   of scheme ++ value it carries NOW, i.e. the hash of the pydicom Code of that scheme and value (any meaning, any
+   version), for every string hash H - so also for the H of another interpreter *)
+Theorem C17_hash_follows_current_code : forall srt ops h kids vs a d,
+  run_ops srt ([], []) ops = ((h, kids), vs) -> nth_error h a = Some d -> d_cc d = true ->
+  exists s v, ds_scheme d = Ok s /\ ds_value d = Some v /\
+    step srt (h, kids) (OHash a) = ((h, kids), VL [VS (s ++ v); VB true]) /\
+    forall (H : string -> Z) m ver,
+      obj_hash H (HD d) = Ok (H (s ++ v)) /\ obj_hash H (PD (Code v s m ver)) = obj_hash H (HD d).
+Proof. exact reachable_hash_follows_code. Qed.
+Print Assumptions C17_hash_follows_current_code.
+
+Theorem C17_reachable_same_code_same_hash : forall srt ops h kids vs a b da db (H : string -> Z),
+  run_ops srt ([], []) ops = ((h, kids), vs) -> nth_error h a = Some da -> nth_error h b = Some db ->
+  d_cc da = true -> d_cc db = true -> ds_scheme da = ds_scheme db -> ds_value da = ds_value db ->
+  obj_hash H (HD da) = obj_hash H (HD db) /\ exists z, obj_hash H (HD da) = Ok z.
+Proof. exact reachable_same_code_same_hash. Qed.
+Print Assumptions C17_reachable_same_code_same_hash.
+
+(* hash, set / dict lookup and == change nothing; hash answers from the record as it is at the call *)
+Theorem C17_observations_leave_no_trace : forall srt st a b,
+  fst (step srt st (OHash a)) = st /\ fst (step srt st (OLookup a b)) = st /\ fst (step srt st (OEq a b)) = st.
+Proof. exact observations_leave_no_trace. Qed.
+Print Assumptions C17_observations_leave_no_trace.
+
+Theorem C17_hash_reads_the_present : forall srt h kids h' kids' a d,
+  nth_error h a = Some d -> nth_error h' a = Some d ->
+  snd (step srt (h, kids) (OHash a)) = snd (step srt (h', kids') (OHash a)).
+Proof. exact hash_reads_the_present. Qed.
+Print Assumptions C17_hash_reads_the_present.
+
+(* use as a key, copy with deepcopy / pickle, give the copy another code: the copy hashes as its new code *)
+Theorem C17_hashed_then_cloned_then_edited : forall srt h kids a d k v', nth_error h a = Some d ->
+  wf_concept d -> d_cc d = true ->
+  exists s v st1 st2,
+    ds_scheme d = Ok s /\ ds_value d = Some v /\
+    step srt (h, kids) (OHash a) = ((h, kids), VL [VS (s ++ v); VB true]) /\
+    step srt (h, kids) (OClone a) = (st1, vnat (length h)) /\
+    step srt st1 (OSetCode (length h) k v') = (st2, vnat (length h)) /\
+    snd (step srt st2 (OHash (length h))) = VL [VS (s ++ v'); VB true] /\
+    snd (step srt st2 (OHash a)) = VL [VS (s ++ v); VB true].
+Proof. exact hashed_then_cloned_then_edited. Qed.
+Print Assumptions C17_hashed_then_cloned_then_edited.
+
+(* edit of the object itself (also through an alias), of value / form, scheme, meaning, version *)
+Theorem C17_hashed_then_edited : forall srt h kids a d, nth_error h a = Some d -> wf_concept d -> d_cc d = true ->
+  exists s v, ds_scheme d = Ok s /\ ds_value d = Some v /\
+    (forall k v', snd (step srt (fst (step srt (h, kids) (OSetCode a k v'))) (OHash a)) = VL [VS (s ++ v'); VB true]) /\
+    (forall s', snd (step srt (fst (step srt (h, kids) (OSetScheme a s'))) (OHash a)) = VL [VS (s' ++ v); VB true]) /\
+    (forall m, snd (step srt (fst (step srt (h, kids) (OSetMeaning a m))) (OHash a)) = VL [VS (s ++ v); VB true]) /\
+    (forall ver, snd (step srt (fst (step srt (h, kids) (OSetVersion a ver))) (OHash a)) = VL [VS (s ++ v); VB true]).
+Proof. exact hashed_then_edited. Qed.
+Print Assumptions C17_hashed_then_edited.
+
+(* {a} / {a: 1} probed with b, with the Code of b, {Code of a} probed with b: one answer (same hashed string and ==);
+   a concept and the Code of its current scheme, value and version always find each other *)
+Theorem C17_reachable_lookup_as_one : forall srt ops h kids vs a b da db,
+  run_ops srt ([], []) ops = ((h, kids), vs) -> nth_error h a = Some da -> nth_error h b = Some db ->
+  d_cc da = true -> d_cc db = true ->
+  exists r, step srt (h, kids) (OLookup a b) = ((h, kids), VL [VB r; VB r; VB r; VB r; VB true; VB true]) /\
+    (r = true <-> hash_key (HD da) = hash_key (HD db) /\ obj_eq srt (HD da) (HD db) = Ok true) /\
+    (a = b -> r = true).
+Proof. exact reachable_lookup. Qed.
+Print Assumptions C17_reachable_lookup_as_one.
+
+Example C17_example_object_with_a_past :
+  exists h kids, run_ops (fun _ => None) ([], []) ex_past_ops =
+    ((h, kids),
+     [VZ 0; VL [VS "SCT373098007"; VB true]; VZ 1; VZ 1; VL [VS "SCT373099004"; VB true];
+      VL [VS "SCT373098007"; VB true]; VZ 2; VZ 2; VL [VS "99TEST373098007"; VB true]; VZ 0;
+      VL [VB true; VB true; VB true; VB true; VB true; VB true];
+      VL [VB false; VB false; VB false; VB false; VB true; VB true];
+      VL [VB true; VB true; VB true; VB true; VB true; VB true]]) /\
+    length h = 3%nat /\
+    map (fun d => vres VS (bind (hashable d) hash_key)) h =
+      [VS "SCTsome_code_value_longer_than_sixteen_chars"; VS "SCT373099004"; VS "99TEST373098007"].
+Proof. exact past_example. Qed.
+Print Assumptions C17_example_object_with_a_past.
 
 (* ==== == against non-codes (CodedConcept.__eq__ fall-through; outside the property, modelled and driven) ==== *)
 Theorem C17_py_eq_on_codes_is_eq : forall srt a b, py_eq srt (VObj a) (VObj b) = obj_eq srt a b.
